@@ -166,6 +166,19 @@ def mutate_in_place(rng, r):
     if not isinstance(r, sr.AbelianArray):
         return
     try:
+        # first of all, while the blocks are still the very buffers the operation produced (possibly views of or
+        # shared with an operand's): augmented arithmetic with a block array must not write through them
+        other = r.copy()
+        which = rng.randrange(3)
+        if which == 0:
+            r += other
+        elif which == 1:
+            r -= other
+        else:
+            r *= other
+    except Exception:  # noqa
+        pass
+    try:
         if r.fermionic:
             r.phase_global(inplace=True)
             if r.ndim:
@@ -180,6 +193,7 @@ def mutate_in_place(rng, r):
             r.transpose(inplace=True)
         r.apply_to_arrays(lambda b: b * 2)
         r *= 3
+
         for k in list(r.blocks):
             r.blocks[k] = r.blocks[k] + 1
         if r.blocks:
@@ -214,7 +228,8 @@ def _inplace_call(x, x_env, st):
     sym = ser.sym_name(x.symmetry)
     if op == "transpose":
         axes = p.get("axes")
-        return x.transpose(None if axes is None else tuple(axes), inplace=True)
+        kw = {"phase": p["phase"]} if "phase" in p else {}
+        return x.transpose(None if axes is None else tuple(axes), inplace=True, **kw)
     if op == "conj":
         kw = {}
         if "pp" in p:
